@@ -8,6 +8,7 @@ use std::path::{Path, PathBuf};
 mod leaf;
 mod panics;
 mod schema;
+mod serde_structs;
 mod tables;
 
 pub struct Out {
@@ -62,6 +63,7 @@ fn main() {
     tables::run(&repo, &mut out);
     panics::run(&repo, &mut out);
     schema::run(&repo, &mut out);
+    serde_structs::run(&repo, &mut out);
     for (name, content) in &out.files {
         write_if_changed(&outdir.join(name), content);
     }
